@@ -52,9 +52,13 @@ HOOK_POINTS = ["feed.send", "gen.err", "gen.line", "gen.recv", "grow.err", "grow
                "walk.err", "walk.recv"]
 
 
-def directed_delay(rng):
-    """a directed schedule: every visit of one hand-over point is delayed"""
-    return "d%s:%d" % (rng.choice(HOOK_POINTS), rng.choice([200, 1000, 3000]))
+def directed_delay(rng, nlines=0):
+    """a directed schedule: every visit of one hand-over point is delayed (the total added delay stays far below the
+    call deadline: a point may be visited once per input line)"""
+    us = rng.choice([200, 1000, 3000])
+    if nlines > 100:
+        us = max(1, min(us, 1000000 // nlines))
+    return "d%s:%d" % (rng.choice(HOOK_POINTS), us)
 
 
 def stage_docs(rng, tier):
@@ -231,7 +235,7 @@ def run(ck, rng):
     mcases, scases = [], []
     for entry, doc, items, exts, pre, strict, tag, kind in scen:
         procs = rng.choice([1, 2, 4, 16])
-        seed = rng.choice([0, rng.randint(1, 10 ** 6), rng.randint(1, 10 ** 6), directed_delay(rng)])
+        seed = rng.choice([0, rng.randint(1, 10 ** 6), rng.randint(1, 10 ** 6), directed_delay(rng, doc.count(b"\n"))])
         if tag == "non_uniform_blocks":
             seed = rng.randint(1, 10 ** 6)
         if kind == "stray":
